@@ -33,8 +33,24 @@ pub enum Arm { Direct(Target), Guarded(Vec<(Guard, Target)>) }
 #[derive(Clone, Debug, Serialize, Deserialize, PartialEq)]
 pub enum IllFormed { None, TargetUndeclared, TargetDeclaredWithoutArm }
 
+/// Array-pattern family: one state `:Scan(xs<[u64]>, acc<u64>)` whose arms destructure the vector.
+#[derive(Clone, Debug, Serialize, Deserialize, PartialEq)]
+pub struct ArrayMachine {
+  pub start_acc: u64,
+  /// optional arm `:Scan([a, b | tail], acc)` with guard `a CMP b`: then keep a (drop b, acc + b) else keep b (acc + a)
+  pub pair_arm: Option<Cmp>,
+  /// arm `:Scan([x | rest], acc)`: guard `x CMP c` -> acc + x, else acc + else_add
+  pub single_guard: Option<(Cmp, u64)>,
+  pub else_add: u64,
+  /// the single arm does not consume its element (`-> :Scan([x rest], acc)`): never terminates on non-empty input
+  pub no_consume: bool,
+  pub done_add: u64,
+}
+
 #[derive(Clone, Debug, Serialize, Deserialize)]
 pub struct Machine {
+  #[serde(default)]
+  pub array: Option<ArrayMachine>,
   pub arity: usize,
   /// arms of states 0..n (state i is named A, B, C, D); every state carries `arity` u64 fields
   pub arms: Vec<Arm>,
@@ -44,6 +60,8 @@ pub struct Machine {
 
 #[derive(Clone, Debug, Serialize, Deserialize)]
 pub enum Invocation { Ok(Vec<u64>), WrongKind(Vec<u64>, usize, String), WrongCount(Vec<u64>) }
+// for the array family `Ok(v)` is the input vector; WrongKind(v, _, kind) passes a vector of another
+// element kind ("f64" = untyped literals); WrongCount(v) passes the vector and an extra scalar
 
 #[derive(Clone, Debug, Serialize, Deserialize)]
 pub struct Plan { pub machine: Machine, pub invocations: Vec<(Invocation, usize)>, pub hash_seed: u64 }
@@ -76,8 +94,31 @@ fn target_text(t: &Target) -> String {
   }
 }
 
+fn render_array(a: &ArrayMachine) -> String {
+  let mut s = String::from("#M(xs<[u64]>) => <u64>\n  ├ :Scan(xs<[u64]>, acc<u64>)\n  └ :Done(out<u64>).\n\n");
+  s.push_str(&format!("#M(xs<[u64]>) -> :Scan(xs, {}u64)\n", a.start_acc));
+  if let Some(c) = &a.pair_arm {
+    s.push_str("  :Scan([a, b | tail], acc)\n");
+    s.push_str(&format!("    ├ a {} b -> :Scan([a tail], acc + b)\n", cmp_text(c)));
+    s.push_str("    └ * -> :Scan([b tail], acc + a)\n");
+  }
+  let next = if a.no_consume { "[x rest]" } else { "rest" };
+  match &a.single_guard {
+    Some((c, k)) => {
+      s.push_str("  :Scan([x | rest], acc)\n");
+      s.push_str(&format!("    ├ x {} {}u64 -> :Scan({}, acc + x)\n", cmp_text(c), k, next));
+      s.push_str(&format!("    └ * -> :Scan({}, acc + {}u64)\n", next, a.else_add));
+    }
+    None => s.push_str(&format!("  :Scan([x | rest], acc) -> :Scan({}, acc + x)\n", next)),
+  }
+  s.push_str(&format!("  :Scan([], acc) -> :Done(acc + {}u64)\n", a.done_add));
+  s.push_str("  :Done(out) => out.\n");
+  s
+}
+
 impl Machine {
   pub fn render(&self) -> String {
+    if let Some(a) = &self.array { return render_array(a); }
     let k = self.arity;
     let typed: Vec<String> = (0..k).map(|i| format!("{}<u64>", FIELDS[i])).collect();
     let plain: Vec<String> = (0..k).map(|i| FIELDS[i].to_string()).collect();
@@ -101,6 +142,16 @@ impl Machine {
     }
     s.push_str("  :Done(out) => out.\n");
     s
+  }
+}
+
+fn render_invocation_for(m: &Machine, inv: &Invocation) -> String {
+  if m.array.is_none() { return render_invocation(inv); }
+  let vec_of = |v: &Vec<u64>, kind: &str| format!("[{}]", v.iter().map(|x| match kind { "f64" => format!("{}", x), k => format!("{}{}", x, k) }).collect::<Vec<_>>().join(" "));
+  match inv {
+    Invocation::Ok(v) => format!("#M({})", vec_of(v, "u64")),
+    Invocation::WrongKind(v, _, kind) => format!("#M({})", vec_of(v, if kind == "i64" { "u8" } else { kind })),
+    Invocation::WrongCount(v) => format!("#M({}, 1u64)", vec_of(v, "u64")),
   }
 }
 
@@ -141,7 +192,39 @@ fn eval_guard(g: &Guard, f: &[u64]) -> bool {
   match g { Guard::Wild => true, Guard::CmpC(i, cm, k) => c(cm, f[*i], *k), Guard::CmpF(i, cm, j) => c(cm, f[*i], f[*j]) }
 }
 
+fn reference_array(a: &ArrayMachine, input: &[u64]) -> RefRun {
+  // state = (vector, acc); visited records ("Scan", [acc]) — the vector itself is not parsed from the trace
+  let c = |c: &Cmp, x: u64, y: u64| match c { Cmp::Gt => x > y, Cmp::Lt => x < y, Cmp::Eq => x == y, Cmp::Ge => x >= y, Cmp::Le => x <= y, Cmp::Ne => x != y };
+  let mut xs: Vec<u64> = input.to_vec();
+  let mut acc = a.start_acc;
+  let mut visited = vec![]; let mut taken = vec![];
+  let mut seen: BTreeSet<(Vec<u64>, u64)> = BTreeSet::new();
+  for _ in 0..5000 {
+    visited.push((0usize, vec![acc]));
+    if !seen.insert((xs.clone(), acc)) { visited.pop(); return RefRun { visited, taken, end: RefEnd::Loops }; }
+    if xs.len() >= 2 && a.pair_arm.is_some() {
+      let (p, q) = (xs[0], xs[1]);
+      let tail: Vec<u64> = xs[2..].to_vec();
+      if c(a.pair_arm.as_ref().unwrap(), p, q) { acc = match acc.checked_add(q) { Some(v) => v, None => return RefRun { visited, taken, end: RefEnd::Overflow } }; xs = std::iter::once(p).chain(tail).collect(); taken.push(0); }
+      else { acc = match acc.checked_add(p) { Some(v) => v, None => return RefRun { visited, taken, end: RefEnd::Overflow } }; xs = std::iter::once(q).chain(tail).collect(); taken.push(1); }
+      continue;
+    }
+    if !xs.is_empty() {
+      let x = xs[0];
+      let (add, gi) = match &a.single_guard { Some((cm, k)) => if c(cm, x, *k) { (x, 0) } else { (a.else_add, 1) }, None => (x, 0) };
+      acc = match acc.checked_add(add) { Some(v) => v, None => return RefRun { visited, taken, end: RefEnd::Overflow } };
+      if !a.no_consume { xs.remove(0); }
+      taken.push(gi);
+      continue;
+    }
+    taken.push(0);
+    return match acc.checked_add(a.done_add) { Some(v) => RefRun { visited, taken, end: RefEnd::Value(v) }, None => RefRun { visited, taken, end: RefEnd::Overflow } };
+  }
+  RefRun { visited, taken, end: RefEnd::TooLong }
+}
+
 pub fn reference(m: &Machine, input: &[u64]) -> RefRun {
+  if let Some(a) = &m.array { return reference_array(a, input); }
   let mut visited = vec![];
   let mut taken = vec![];
   let mut seen: BTreeSet<(usize, Vec<u64>)> = BTreeSet::new();
@@ -192,6 +275,18 @@ fn gen_target(rng: &mut Rng, k: usize, n_states: usize, done_bias: u64) -> Targe
 }
 
 pub fn gen_machine(rng: &mut Rng) -> Machine {
+  if rng.chance(1, 5) {
+    let cmps = [Cmp::Gt, Cmp::Lt, Cmp::Eq, Cmp::Ge, Cmp::Le, Cmp::Ne];
+    let a = ArrayMachine {
+      start_acc: *rng.pick(&[0u64, 0, 1, 10]),
+      pair_arm: if rng.chance(1, 2) { Some(rng.pick(&cmps).clone()) } else { None },
+      single_guard: if rng.chance(2, 3) { Some((rng.pick(&cmps).clone(), *rng.pick(&[0u64, 1, 2, 3, 5]))) } else { None },
+      else_add: *rng.pick(&[0u64, 1, 100]),
+      no_consume: rng.chance(1, 8),
+      done_add: *rng.pick(&[0u64, 0, 1, 7]),
+    };
+    return Machine { array: Some(a), arity: 1, arms: vec![], start: vec![], ill: IllFormed::None };
+  }
   let k = 1 + rng.usize(3);
   let n_states = 1 + rng.usize(4);
   let mut arms = vec![];
@@ -208,7 +303,7 @@ pub fn gen_machine(rng: &mut Rng) -> Machine {
     }
   }
   let start = (0..k).map(|i| if rng.chance(3, 4) { Term::Field(i) } else { gen_term(rng, k) }).collect();
-  let mut m = Machine { arity: k, arms, start, ill: IllFormed::None };
+  let mut m = Machine { array: None, arity: k, arms, start, ill: IllFormed::None };
   // ill-formed variants
   match rng.below(12) {
     0 => { m.ill = IllFormed::TargetUndeclared; retarget(&mut m, rng, 4); }
@@ -234,11 +329,11 @@ pub fn plan(seed: u64, k: u64) -> Plan {
   let n_inv = 2 + rng.usize(4);
   let mut invocations = vec![];
   for _ in 0..n_inv {
-    let vals: Vec<u64> = (0..machine.arity).map(|_| *rng.pick(&[0u64, 0, 1, 2, 3, 4, 5, 7, 10])).collect();
+    let vals: Vec<u64> = if machine.array.is_some() { let n = 1 + rng.usize(5); (0..n).map(|_| *rng.pick(&[0u64, 1, 2, 3, 5, 7])).collect() } else { (0..machine.arity).map(|_| *rng.pick(&[0u64, 0, 1, 2, 3, 4, 5, 7, 10])).collect() };
     let budget = *rng.pick(&[1usize, 2, 3, 5, 8, 13, 30, 100, 1000]);
     let inv = match rng.below(12) {
       0 => { let pos = rng.usize(vals.len()); Invocation::WrongKind(vals, pos, rng.pick(&["f64", "u8", "i64", "u32"]).to_string()) }
-      1 => { let mut v = vals.clone(); if rng.chance(1, 2) || v.len() == 1 { v.push(1); } else { v.pop(); } Invocation::WrongCount(v) }
+      1 => { let mut v = vals.clone(); if machine.array.is_none() { if rng.chance(1, 2) || v.len() == 1 { v.push(1); } else { v.pop(); } } Invocation::WrongCount(v) }
       _ => Invocation::Ok(vals),
     };
     invocations.push((inv, budget));
@@ -298,7 +393,7 @@ fn execute_on_thread(pl: &Plan) -> RunOut {
   let vio = |class: &str, detail: &str, summary: String| Violation { class: class.to_string(), signature: format!("{}|{}", class, detail), summary };
   let mut declared = false;
   for (idx, (inv, budget)) in pl.invocations.iter().enumerate() {
-    let inv_text = render_invocation(inv);
+    let inv_text = render_invocation_for(m, inv);
     let text = if !declared { format!("{}\n{}", decl, inv_text) } else { inv_text.clone() };
     node.intrp.max_steps = *budget;
     node.intrp.clear_trace_events();
@@ -336,7 +431,8 @@ fn execute_on_thread(pl: &Plan) -> RunOut {
         } else {
           let rr = reference(m, vals);
           let t = rr.visited.len(); // iterations needed before the output arm's own iteration
-          let want_states: Vec<(String, Vec<u64>)> = rr.visited.iter().map(|(s, p)| (STATE_NAMES[*s].to_string(), p.clone())).collect();
+          let want_states: Vec<(String, Vec<u64>)> = rr.visited.iter().map(|(s, p)| (if m.array.is_some() { "Scan".to_string() } else { STATE_NAMES[*s].to_string() }, p.clone())).collect();
+          if m.array.is_some() { bump(&mut counters, "reach:array-pattern-machine", 1); }
           let limit_err = matches!(&outcome, Outcome::Err { name, .. } if name == "FsmExceededTransitionLimit");
           match &rr.end {
             RefEnd::Value(v) => {
@@ -401,7 +497,7 @@ pub fn worker_run(seed: u64, k: u64) -> J {
     let (fpl, fo) = if o2.violation.as_ref().map(|x| x.signature == v.signature).unwrap_or(false) { (min, o2) } else { (pl.clone(), execute(&pl)) };
     let vv = fo.violation.clone().unwrap_or(v.clone());
     json!({"properties": ["C17"], "class": v.class, "signature": v.signature, "summary": format!("run {}: {}", k, vv.summary),
-      "replay": {"world": "W5", "seed": seed, "run": k, "plan": fpl, "machine_text": fpl.machine.render(), "invocations": fpl.invocations.iter().map(|(i, b)| format!("{} with max_steps={}", render_invocation(i), b)).collect::<Vec<_>>(), "event_log": fo.log, "violation": vv, "faults": fpl.invocations.iter().map(|(i, b)| format!("{:?} budget {}", i, b)).collect::<Vec<_>>()}})
+      "replay": {"world": "W5", "seed": seed, "run": k, "plan": fpl, "machine_text": fpl.machine.render(), "invocations": fpl.invocations.iter().map(|(i, b)| format!("{} with max_steps={}", render_invocation_for(&fpl.machine, i), b)).collect::<Vec<_>>(), "event_log": fo.log, "violation": vv, "faults": fpl.invocations.iter().map(|(i, b)| format!("{:?} budget {}", i, b)).collect::<Vec<_>>()}})
   }).collect();
   let sample = if k % 1499 == 7 || k == 0 { json!({"run": k, "machine": pl.machine.render(), "event_log": out.log}) } else { J::Null };
   json!({"digest": out.digest, "nontrivial": out.nontrivial, "state_digests": [], "counters": out.counters, "sets": {}, "violations": violations, "sample": sample})
